@@ -338,7 +338,12 @@ fn cli_part(thorough: bool) -> Tally {
 		("multi.msgpack", F::Msgpack, vec![V::Arr(vec![]), V::Bool(false)]),
 		("one.toml", F::Toml, vec![V::map(vec![("t", V::map(vec![("k", V::s("v"))]))])]),
 		("noext-json", F::Json, vec![V::Arr(vec![V::Int(9)])]),
+		("big.json", F::Json, vec![V::map(vec![("i", V::Int(1))]), V::map(vec![("p", V::Str("q".repeat(14_000)))])]),
 	];
+	// operands that fail: everything translated from the operands before them must be on stdout
+	w.write("bad.json", b"}{ nope\n");
+	w.write("undetectable", b"\x00\x01 @@@ {{{\n");
+	let failing = ["bad.json", "missing.yaml", "undetectable"];
 	for (name, f, docs) in &files {
 		w.write(name, &spell_stream(*f, docs, Style(0), 0).unwrap());
 	}
@@ -355,6 +360,50 @@ fn cli_part(thorough: bool) -> Tally {
 		}
 	}
 	let dir = w.path().to_path_buf();
+	// lists of 1-2 good operands, a failing one, and possibly one more good operand
+	let mut flists: Vec<(Vec<usize>, usize, bool)> = vec![];
+	for i in 0..files.len() {
+		for (b, _) in failing.iter().enumerate() {
+			flists.push((vec![i], b, false));
+			flists.push((vec![i], b, true));
+			for j in 0..files.len() {
+				if thorough || (i + j) % 2 == 0 {
+					flists.push((vec![i, j], b, false));
+				}
+			}
+		}
+	}
+	let tf = par_fold(&flists, Tally::default, |t, idx, (list, b, trailing)| {
+		for to in F::STREAMING {
+			let mut args: Vec<String> = vec![format!("-t{}", to.letter())];
+			args.extend(list.iter().map(|&i| files[i].0.to_string()));
+			args.push(failing[*b].to_string());
+			if *trailing {
+				args.push(files[0].0.to_string());
+			}
+			let argv: Vec<&str> = args.iter().map(String::as_str).collect();
+			let mut sp = Spawn::new(&dir, &argv);
+			sp.release = idx % 2 == 0;
+			let o = proc::run(&sp);
+			t.evaluations += 1;
+			t.count("cli:file-lists-with-a-failing-operand");
+			let mut expected = vec![];
+			let mut ok = true;
+			for &i in list {
+				match reference_for(&files[i].2, to) {
+					Some(refs) => expected.extend(refs.concat()),
+					None => ok = false,
+				}
+			}
+			if !ok {
+				continue;
+			}
+			if o.exit != Exit::Code(1) || o.stdout != expected {
+				t.bad(format!("cli-output-before-a-failing-operand-differs:{}", to.name()), json!({"kind": "cli-list", "argv": argv}),
+					format!("xt {argv:?}: {} | expected exit 1 and the concatenation for the operands before the failing one: {}", o.brief(), show(&expected)));
+			}
+		}
+	});
 	let ts = par_fold(&lists, Tally::default, |t, idx, list| {
 		for to in F::STREAMING {
 			let mut args: Vec<String> = vec![format!("-t{}", to.letter())];
@@ -382,7 +431,9 @@ fn cli_part(thorough: bool) -> Tally {
 			}
 		}
 	});
-	Tally::merge_all(ts)
+	let mut all = Tally::merge_all(ts);
+	all.merge(Tally::merge_all(tf));
+	all
 }
 
 pub fn run(ctx: &Ctx) -> CheckOutput {
@@ -489,11 +540,11 @@ pub fn run(ctx: &Ctx) -> CheckOutput {
 	tally.merge(cli_part(thorough));
 	tally.states += hists.len() as u64;
 	let req = |k: &str| (k.to_string(), *tally.counters.get(k).unwrap_or(&0));
-	let required = vec![req("histories:len1"), req("histories:len2"), req("histories:len3"), req("streams"), req("streams:size-ladder"), req("cli:file-lists")];
+	let required = vec![req("histories:len1"), req("histories:len2"), req("histories:len3"), req("streams"), req("streams:size-ladder"), req("cli:file-lists"), req("cli:file-lists-with-a-failing-operand")];
 	CheckOutput {
 		level: "model_checking",
 		tally,
-		rule: format!("(H) input alphabet of {} inputs (JSON/YAML/MessagePack streams of 0,1,2,3,4 documents incl. an 8 KiB-class map, several separator styles, slice/reader, named/detected; TOML single documents; one failing input per format); all histories of 1 and 2 calls{} on ONE Translator per streaming target; oracle: output == concatenation of the translations of each document alone by a fresh translator (prefix of it when a call fails), and the harness's own reader of the target recovers exactly those N documents. (I) N-document streams (N up to 1000) and streams whose first document ends at every offset around 8192/16384/24576, x separators x 3 targets x explicit/detected, slice and reader under two default policies and all schedules with <= {} deviation(s) cut at document boundaries +-1. (I') three-document streams in which a leading YAML comment block or the first document (YAML explicit / implicit / implicit and indented, three ways of ending a document; JSON; MessagePack) has every exact size 2^k-1, 2^k, 2^k+1 around the 4 KiB..64 KiB buffer sizes (thorough: 1 KiB..256 KiB and further multiples of 8 KiB). (CLI) every list of 1-3 files over 8 files of mixed formats (single and multi-document, extension-less) through the real binary: stdout == concatenation of the per-document translations.", alpha.len(), if thorough { " and all of 3 calls whose third input is below 300 bytes" } else { " and a fixed third of the 3-call histories" }, d),
+		rule: format!("(H) input alphabet of {} inputs (JSON/YAML/MessagePack streams of 0,1,2,3,4 documents incl. an 8 KiB-class map, several separator styles, slice/reader, named/detected; TOML single documents; one failing input per format); all histories of 1 and 2 calls{} on ONE Translator per streaming target; oracle: output == concatenation of the translations of each document alone by a fresh translator (prefix of it when a call fails), and the harness's own reader of the target recovers exactly those N documents. (I) N-document streams (N up to 1000) and streams whose first document ends at every offset around 8192/16384/24576, x separators x 3 targets x explicit/detected, slice and reader under two default policies and all schedules with <= {} deviation(s) cut at document boundaries +-1. (I') three-document streams in which a leading YAML comment block or the first document (YAML explicit / implicit / implicit and indented, three ways of ending a document; JSON; MessagePack) has every exact size 2^k-1, 2^k, 2^k+1 around the 4 KiB..64 KiB buffer sizes (thorough: 1 KiB..256 KiB and further multiples of 8 KiB). (CLI) every list of 1-3 files over 9 files of mixed formats (single and multi-document, extension-less, one with a 14 KB document) through the real binary: stdout == concatenation of the per-document translations; and lists of 1-2 of them followed by a failing operand (syntax error, missing file, undetectable) and possibly one more file: exit 1 and stdout == the concatenation for the operands before the failing one.", alpha.len(), if thorough { " and all of 3 calls whose third input is below 300 bytes" } else { " and a fixed third of the 3-call histories" }, d),
 		exhaustive: thorough,
 		bounds: json!({"history_depth": if thorough { 3 } else { 2 }, "alphabet": alpha.len(), "deviations": d}),
 		assumptions: vec!["the reference for a document is xt's own translation of that document alone (the structure run sequentially); absolute fidelity is C01's job".into()],
